@@ -105,10 +105,10 @@ def op_strategy(draw, style):
 @st.composite
 def histories(draw, max_steps=12):
     style = draw(st.sampled_from(["grid", "dec", "dec"]))
-    init = [draw(st.one_of(gen.interval_tier(style=style, label=gen.AB, name="i0"),
-                           gen.point_tier(style=style, label=gen.AB, name="p0")))]
+    init = [draw(st.one_of(gen.interval_tier(style=style, label=gen.ABE, name="i0"),
+                           gen.point_tier(style=style, label=gen.ABE, name="p0")))]
     if draw(st.booleans()):
-        init.append(draw(gen.interval_tier(style=style, label=gen.AB, name="i1")))
+        init.append(draw(gen.interval_tier(style=style, label=gen.ABE, name="i1")))
     for t in init:
         if t["entries"] and t["entries"][0][0] > 0 and draw(st.booleans()):
             t["minT"] = t["entries"][0][0]  # a tier whose span starts at its first entry, not at 0
